@@ -2,6 +2,7 @@ package nc
 
 import (
 	"fmt"
+	"go/constant"
 	"go/types"
 	"strings"
 
@@ -152,6 +153,7 @@ func rulesC02(c *Ctx) {
 	R.Rule("R6", "fee limit argument of every pay call = stored FeeReserve or FeeReserve(AmountMsat/1000); backends forward maxFee", 4)
 	R.Rule("R7", "melt quote creation: Amount from the decoded invoice / MPP option, FeeReserve = FeeReserve(Amount) or 0", 3)
 	R.Rule("R8", "every input is counted once: the spent-table insert is a plain INSERT inside one transaction (a repeated secret fails the whole request)", 4)
+	R.Rule("R14", "which pay call: the call that pays the whole invoice is made only for a quote that is not MPP, the partial call only for an MPP quote and with the stored AmountMsat; at creation the MPP flag is set exactly on the paths that store the partial amount", 4)
 	R.Rule("R13", "melt decision table (shared with C05.R1 / C01.R5): inputs are released and the quote reset only on a definitive failure, spent only on success - a release while the payment can still go out lets the same value be swapped and paid", 20)
 	R.Rule("R12", "the checked-arithmetic helpers are what the guards take them for: OverflowAddUint64 / UnderflowSubUint64 answer 'ok' only when the operation did not wrap, AmountChecked tests the overflow flag of every single addition (shared with C03.R12)", 7)
 	R.Rule("R11", "an invoice is requested only for an amount proven to fit in millisats as a signed 64-bit number (the backends multiply by 1000 / convert to int64; a wrapped product gives an invoice for less than the quote)", 1)
@@ -326,6 +328,50 @@ func rulesC02(c *Ctx) {
 			R.Check("R6", fk, "maxFee of "+d.Name, c.P.InstrPos(s.Instr), okLim,
 				"the fee limit handed to the backend is the quote's stored fee reserve (or FeeReserve(AmountMsat/1000) for MPP)",
 				"maxFee argument is "+short(lim.String(), 200))
+		}
+	}
+	// ---- R14 which pay call: the whole invoice is paid only for a quote that charged the whole invoice
+	if melt != nil && meltQuoteIs != nil {
+		fk := c.P.FuncKey(melt)
+		for _, s := range c.paySites(melt) {
+			if !s.Direct {
+				continue // R6 reports the indirection
+			}
+			d := c.P.Describe(s.Instr)
+			m, _ := c.V.IsLNCall(d)
+			feeIdx := c.V.PayMeths[m]
+			o := c.CtxOf(s.Instr)
+			// the integer arguments other than the fee limit: a partial-payment call names its amount
+			var amounts []int
+			for i, a := range d.Args {
+				if bt, ok := a.Type().Underlying().(*types.Basic); ok && bt.Info()&types.IsInteger != 0 && i != feeIdx {
+					amounts = append(amounts, i)
+				}
+			}
+			isMpp := func(pos bool) *Cond {
+				name := "the quote is a partial-payment (MPP) quote"
+				if !pos {
+					name = "the quote is not a partial-payment (MPP) quote"
+				}
+				return &Cond{Name: name, Match: func(f *Fact, o2 *Origins) bool {
+					return f.Kind == "bool" && f.Pos == pos && isField(f.A, "IsMpp") && meltQuoteIs(f.A.Args[0])
+				}}
+			}
+			if len(amounts) == 0 {
+				ok, why := c.RequireAt(s.Instr, isMpp(false))
+				R.Check("R14", fk, "whole-invoice pay call "+d.Name+" <= quote not MPP", c.P.InstrPos(s.Instr), ok,
+					"a call that pays the invoice's full amount is made only for a quote that is not a partial payment (such a quote charged the full amount)", why)
+				continue
+			}
+			ok, why := c.RequireAt(s.Instr, isMpp(true))
+			R.Check("R14", fk, "partial pay call "+d.Name+" <= quote is MPP", c.P.InstrPos(s.Instr), ok,
+				"a partial payment is made only for a quote stored as a partial payment", why)
+			for _, i := range amounts {
+				a := o.Of(d.Args[i])
+				okA := isField(a, "AmountMsat") && meltQuoteIs(a.Args[0])
+				R.Check("R14", fk, "partial pay call "+d.Name+" pays the stored partial amount", c.P.InstrPos(s.Instr), okA,
+					"the amount of a partial payment is the quote's stored AmountMsat (whose /1000 was charged, R7)", "amount argument is "+short(a.String(), 160))
+			}
 		}
 	}
 	c.c02Backends()
@@ -717,6 +763,47 @@ func (c *Ctx) c02MeltQuoteCreation() {
 			}
 		}
 		R.Check("R7", fk, "stored AmountMsat consistent with Amount", c.P.InstrPos(s.Instr), okMsat, "AmountMsat is 0 or the value whose /1000 is the stored amount", short(amsat.String(), 160))
+		// R14: the MPP flag goes with the partial amount. The flag is a boolean set on some paths; with the
+		// paths that set it removed the stored amount is the invoice's, with the others removed it is the
+		// option's (the pay side chooses the call by this flag)
+		flag := project(q, "IsMpp")
+		partial := func(e *Ex) bool { return strings.Contains(e.String(), "AmountMsat") }
+		switch {
+		case isConst(flag, "false"):
+			ok := true
+			for _, a := range amt.Alts() {
+				if partial(a) {
+					ok = false
+				}
+			}
+			R.Check("R14", fk, "quote never MPP => Amount is the invoice's", c.P.InstrPos(s.Instr), ok, "a quote that is not stored as MPP charges the whole invoice (it is paid with the whole-invoice call)", "Amount: "+short(amt.String(), 200))
+		default:
+			tEdges, fEdges, okForm := boolPhiEdges(flag.V, 0)
+			if !okForm || len(tEdges) == 0 || len(fEdges) == 0 {
+				R.Undecided("R14", fk, "MPP flag of the stored quote", c.P.InstrPos(s.Instr), "flag and amount go together", "the stored IsMpp is not a flag set to constants on the paths: "+short(flag.String(), 160))
+				break
+			}
+			for _, side := range []struct {
+				cut  map[Edge]bool
+				want string
+				mpp  bool
+			}{{tEdges, "false", false}, {fEdges, "true", true}} {
+				q2 := o.WithCut(side.cut).Of(d.Args[0])
+				f2, a2 := project(q2, "IsMpp"), project(q2, "Amount")
+				ok := isConst(f2, side.want)
+				for _, a := range a2.Alts() {
+					if partial(a) != side.mpp {
+						ok = false
+					}
+				}
+				what := "not MPP => Amount is the invoice's"
+				if side.mpp {
+					what = "MPP => Amount is the option's partial amount"
+				}
+				R.Check("R14", fk, what, c.P.InstrPos(s.Instr), ok, "the MPP flag is stored exactly on the paths that store the partial amount (the pay side picks the whole-invoice or the partial call by it)",
+					fmt.Sprintf("on these paths IsMpp = %s, Amount = %s", short(f2.String(), 60), short(a2.String(), 200)))
+			}
+		}
 		// MPP amount proven smaller than the invoice amount
 		mpp := &Cond{Name: "mpp amount < invoice amount", Match: func(f *Fact, o2 *Origins) bool {
 			return f.Kind == "cmp" && f.Pos && f.Op.String() == "<" && strings.Contains(f.A.String(), "AmountMsat") && strings.Contains(f.B.String(), "MSatoshi")
@@ -956,4 +1043,50 @@ func (c *Ctx) c02InvoiceAmountBounded() {
 		R.Check("R11", fk, siteDesc(c, s)+" <= amount bounded", c.P.InstrPos(s.Instr), ok,
 			"the amount for which an invoice is requested was compared against a constant bound of at most MaxInt64/1000 sats", why)
 	}
+}
+
+// boolPhiEdges lists the CFG edges over which a boolean phi (of phis) receives the constants true and false.
+func boolPhiEdges(v ssa.Value, depth int) (t, f map[Edge]bool, ok bool) {
+	t, f = map[Edge]bool{}, map[Edge]bool{}
+	ph, isPhi := v.(*ssa.Phi)
+	if !isPhi || depth > 3 {
+		return t, f, false
+	}
+	b := ph.Block()
+	for i, e := range ph.Edges {
+		pred := b.Preds[i]
+		var edges []Edge
+		for si, sc := range pred.Succs {
+			if sc == b {
+				edges = append(edges, Edge{pred, si})
+			}
+		}
+		switch x := e.(type) {
+		case *ssa.Const:
+			if x.Value == nil || x.Value.Kind() != constant.Bool {
+				return t, f, false
+			}
+			for _, ed := range edges {
+				if constant.BoolVal(x.Value) {
+					t[ed] = true
+				} else {
+					f[ed] = true
+				}
+			}
+		case *ssa.Phi:
+			t2, f2, ok2 := boolPhiEdges(x, depth+1)
+			if !ok2 {
+				return t, f, false
+			}
+			for k := range t2 {
+				t[k] = true
+			}
+			for k := range f2 {
+				f[k] = true
+			}
+		default:
+			return t, f, false
+		}
+	}
+	return t, f, true
 }
